@@ -48,7 +48,7 @@ func c10Scenarios(r *vmc.Result) []rtScenario {
 			LocalKeys: []string{"a.com", "*.A.com"}, LocalMet: m2[1:]}),
 		rtMkScenario("f-rules", d, p2, rtAlpha{Tbl: 'f', Keys: []string{"web", "Web"}, Peers: p2, Origins: o2, Seqs: s2, Metrics: mq, LoopAdv: true,
 			LocalKeys: []string{"web"}, LocalMet: m2[1:]}),
-		rtMkScenario("a-rules", d, p2, rtAlpha{Tbl: 'a', Keys: o2, Peers: p2, Origins: o2, Seqs: s2, Metrics: mq, LoopAdv: true, AgentAny: r.Thorough()}),
+		rtMkScenario("a-rules", d, p2, rtAlpha{Tbl: 'a', Keys: o2, Peers: p2, Origins: o2, Seqs: s2, Metrics: mq, LoopAdv: true}),
 		// all four tables in one manager: one key per table, so that an operation on one table
 		// (or a disconnect / cleanup, which touch all four) is checked against the other three
 		rtMkScenario("all-tables", dd, p2,
@@ -56,6 +56,10 @@ func c10Scenarios(r *vmc.Result) []rtScenario {
 			rtAlpha{Tbl: 'd', Keys: []string{"*.a.com"}, Peers: p2, Origins: o1, Seqs: s2, Metrics: m2, LoopAdv: true, LocalKeys: []string{"*.a.com"}, LocalMet: m2[:1]},
 			rtAlpha{Tbl: 'f', Keys: []string{"web"}, Peers: p2, Origins: o1, Seqs: s2, Metrics: m2, LoopAdv: true, LocalKeys: []string{"web"}, LocalMet: m2[:1]},
 			rtAlpha{Tbl: 'a', Keys: o1, Peers: p2, Origins: o1, Seqs: s2, Metrics: m2, LoopAdv: true}),
+	}
+	if r.Thorough() {
+		// agent routes whose origin differs from the target agent (the API allows it; the mesh never sends it)
+		scs = append(scs, rtMkScenario("a-rules-any-origin", 4, p2, rtAlpha{Tbl: 'a', Keys: o2, Peers: p2, Origins: o2, Seqs: s2, Metrics: mq, LoopAdv: true, AgentAny: true}))
 	}
 	return scs
 }
